@@ -1,5 +1,6 @@
 import RSV.Driver.Util
 import RSV.Driver.Fast
+import RSV.Driver.Tables
 import RSV.Model.Builders
 import RSV.Model.Cert
 import RSV.Model.Codec
@@ -221,12 +222,41 @@ def opGen (args : List String) : String :=
     | _, _ => "bad-op"
   | _ => "bad-op"
 
+def hexVal (c : Char) : Nat :=
+  if c.isDigit then c.toNat - 48 else if 'a' ≤ c && c ≤ 'f' then c.toNat - 87 else 0
+
+def parseHex (s : String) : ByteArray := Id.run do
+  let cs := s.toList.toArray
+  let mut out := ByteArray.emptyWithCapacity (cs.size / 2)
+  for i in [0:cs.size / 2] do
+    out := out.push (UInt8.ofNat (hexVal cs[2*i]! * 16 + hexVal cs[2*i+1]!))
+  return out
+
+-- certm <d> <p> <hex of the p×d matrix, row-major>: run the proved certificate on a given matrix
+def opCertM (args : List String) : String :=
+  match args with
+  | [ds, ps, hx] =>
+    match ds.toNat?, ps.toNat? with
+    | some d, some p =>
+      if hd : d = 0 then "bad-op" else if hp : p = 0 then "bad-op" else
+      let bs := parseHex hx
+      if bs.size ≠ d * p then "bad-op" else
+      let A : Mat GF256 p d := Mat.ofFn fun r c => gfOfByte (bs.get! (r.val * d + c.val))
+      let hd' := Nat.pos_of_ne_zero hd
+      let hp' := Nat.pos_of_ne_zero hp
+      let c := certFast hd' hp' none A || certFast hd' hp' (some ⟨p - 1, by omega⟩) A || certFast hd' hp' (some ⟨0, hp'⟩) A
+      s!"ok cert={if c then 1 else 0}"
+    | _, _ => "bad-op"
+  | _ => "bad-op"
+
 def step (line : String) : String :=
   match (line.trimAscii.toString.splitOn " ").filter (· ≠ "") with
   | "gen" :: args => opGen args
   | "enc" :: args => opEnc args
   | "rec" :: args => opRec args
   | "ver" :: args => opVer args
+  | "tab" :: args => opTab args
+  | "certm" :: args => opCertM args
   | [] => ""
   | _ => "bad-op"
 
